@@ -65,17 +65,36 @@ func isWitProg(r rawCase) bool {
 func Run(c *vrun.Ctx) error {
 	c.Ev.Coverage.Rule = "TLC enumerates the cases of AddrCases.tla: the decision tables of DecodeAddress over abstract strings (bech32 form: witness version -1..17,31 (thorough: ..31) x 0..67 data symbols = every program length 0..42 x left-over bits of the 5->8 regrouping {none, 1..4 zero, 1..4 non-zero, 5..7 zero (a superfluous symbol), 5..7 non-zero} x checksum variant {bech32, bech32m, bad} x case, structural defects, mixed case; " +
 		"Base58Check form: version byte class x payload length x checksum x default network; hex key form), concrete address strings computed by the specification's own BIP173 arithmetic for every prefix x version 0..16 x program length x pattern, base-58 strings computed by the specification's digit arithmetic, " +
-		"address kind x network (12 parameter sets: the six of chaincfg and six made by the binder, among them prefix classes of BIP173: a prefix containing the digit 1, a one-character prefix, a prefix registered in upper case) with template / class / extraction, template mutations and the witness program grid (version 0..16 x length 1,2,3,19..21,31..33,39,40,41 (thorough 1..42) x push form, with IsWitnessProgram / ExtractWitnessProgramInfo), spending-data forms, the WIF and serialised extended key tables, " +
+		"address kind x network (15 parameter sets: the six of chaincfg and nine made by the binder, among them prefix classes of BIP173: a prefix containing the digit 1, a one-character prefix, a prefix registered in upper case, prefixes of 6 / 26 / 54 characters that make P2WSH+P2TR / P2WPKH / P2A strings 66 characters long like a hex public key) with template / class / extraction, template mutations and the witness program grid (version 0..16 x length 1,2,3,19..21,31..33,39,40,41 (thorough 1..42) x push form, with IsWitnessProgram / ExtractWitnessProgramInfo), spending-data forms, the WIF and serialised extended key tables, " +
 		"BIP32 operation sequences (<= 3 derivations over {normal, hardened} x {0, 2^31-1} (thorough: also 1) with Neuter at every position, private and public roots, roots at depth 252..255) and the documented BIP32 vectors, " +
 		"taproot leaf lists (every partition into equal scripts up to 4 (thorough 6) leaves, distinct up to 6 (10)) x leaf version patterns with the assembler's tree, all binary tree shapes up to 5 (7) leaves, 9 control block mutations per leaf, and edit classes (1..4 edits x 6 types x region) on valid addresses. " +
+		"A second specification, HdKeys.tla, is a state machine over 2 (thorough 3) extended-key objects living side by side (NewMaster / Derive / Neuter / SetNet / Zero into and onto any slot, 2 networks): TLC's labelled state graph is walked edge by edge on real keys and after every step every live key (version bytes, IsForNet, bookkeeping, key material against a fresh derivation, serialisation, parse-back) and the global network parameter sets are compared with the state. " +
 		"Every case is replayed into the real packages; every string offered to a decoder is abstracted by the binder and the answer looked up in the TLC-produced table. distinct_nontrivial counts distinct abstract cases."
 	c.Assume("TLC evaluates the specification's operators correctly; its BIP173 arithmetic reproduces the BIP173/BIP350 test vectors and its base-58 arithmetic the documented examples (checked inside TLC, DocLaws)")
 	c.Assume("SHA-256, RIPEMD-160, HMAC-SHA512 and secp256k1 group arithmetic are not specified in TLA+: Base58Check checksums are an abstract attribute (the binder computes them with crypto/sha256), BIP32 child keys are compared between operation orders and against the documented BIP32 vectors, taproot tweaks are recomputed with the curve primitives")
 	c.Assume("strings at edit distance 1..4 from a valid address are sampled per edit class (not enumerated); the BCH guarantee for <= 4 substitutions is checked on every sampled string with the binder's own polymod")
 	c.Assume("the binder's abstraction functions (BIP173 reference polymod, math/big base-58, big-integer curve equation) are independent of the packages under test and are themselves checked against the specification's concrete strings (vec32 / vec58 cases)")
 
+	// the key-object machine is checked by a second TLC run, side by side
+	type hdRes struct {
+		res *tlc.Result
+		err error
+	}
+	hdCh := make(chan hdRes, 1)
+	go func() {
+		r, err := runHdKeysTLC(c)
+		hdCh <- hdRes{r, err}
+	}()
+	finishHd := func(w *world) error {
+		h := <-hdCh
+		if h.err != nil {
+			return h.err
+		}
+		return replayHdKeys(c, w, h.res)
+	}
+
 	cfg := "AddrCases_quick.cfg"
-	workers := 5
+	workers := 4
 	if c.Thorough {
 		cfg = "AddrCases_thorough.cfg"
 		workers = 6
@@ -88,7 +107,11 @@ func Run(c *vrun.Ctx) error {
 			}
 			c.Logf("development aid: %d cases from %s", len(cases), cache)
 			c.AddModel(int64(len(cases)), int64(len(cases)))
-			return replay(c, cases)
+			w, err := replayCases(c, cases)
+			if err != nil {
+				return err
+			}
+			return finishHd(w)
 		}
 	}
 	res, err := tlc.Run(tlc.Opts{SpecDir: c.SpecDir("addr"), Module: "AddrCases", Config: cfg, Workers: workers,
@@ -125,10 +148,19 @@ func Run(c *vrun.Ctx) error {
 	if int64(len(cases)) != res.Distinct {
 		return fmt.Errorf("AddrCases.tla: %d states emitted, TLC reports %d distinct", len(cases), res.Distinct)
 	}
-	return replay(c, cases)
+	w, err := replayCases(c, cases)
+	if err != nil {
+		return err
+	}
+	return finishHd(w)
 }
 
 func replay(c *vrun.Ctx, cases []rawCase) error {
+	_, err := replayCases(c, cases)
+	return err
+}
+
+func replayCases(c *vrun.Ctx, cases []rawCase) (*world, error) {
 	byKind := map[string]int{}
 	for _, cs := range cases {
 		byKind[cs.kind]++
@@ -149,7 +181,7 @@ func replay(c *vrun.Ctx, cases []rawCase) error {
 	}
 	sort.Strings(never)
 	if len(never) > 0 {
-		return fmt.Errorf("AddrCases.tla: actions never taken: %v", never)
+		return nil, fmt.Errorf("AddrCases.tla: actions never taken: %v", never)
 	}
 	c.SetExtra("actions_never_taken", []string{})
 	c.SetExtra("states_by_kind", byKind)
@@ -164,7 +196,7 @@ func replay(c *vrun.Ctx, cases []rawCase) error {
 			}
 			var ex netExpect
 			if err := rc.decode(&cs, &ex); err != nil {
-				return err
+				return nil, err
 			}
 			rows = append(rows, cs.N)
 			exps[cs.N.Name] = ex
@@ -173,19 +205,19 @@ func replay(c *vrun.Ctx, cases []rawCase) error {
 	sort.Slice(rows, func(i, j int) bool { return rows[i].Name < rows[j].Name })
 	w, err := newWorld(rows, exps)
 	if err != nil {
-		return err
+		return nil, err
 	}
 	t := newTables(w)
 	if err := t.load(cases); err != nil {
-		return err
+		return nil, err
 	}
 	wt, err := loadWif(cases)
 	if err != nil {
-		return err
+		return nil, err
 	}
 	ht, err := loadHdStr(cases)
 	if err != nil {
-		return err
+		return nil, err
 	}
 	reg := newHdRegistry(c.Seed)
 
@@ -271,7 +303,7 @@ func replay(c *vrun.Ctx, cases []rawCase) error {
 	})
 	c.Workers = saved
 	if firstErr != nil {
-		return firstErr
+		return nil, firstErr
 	}
 	c.Logf("replay of %d cases into address / bech32 / base58 / txscript / btcutil / hdkeychain: %.1fs, %d strings offered to DecodeAddress, %d edited strings were valid addresses in their own right, %d extended keys reached twice",
 		len(cases), time.Since(t0).Seconds(), t.lookups, t.collision, reg.merges)
@@ -279,7 +311,7 @@ func replay(c *vrun.Ctx, cases []rawCase) error {
 	c.SetExtra("edited_strings_valid_in_their_own_right", t.collision)
 	c.SetExtra("extended_keys_reached_by_two_operation_orders", reg.merges)
 	if reg.merges == 0 {
-		return fmt.Errorf("no extended key was reached through two operation orders: the commutation check is vacuous")
+		return nil, fmt.Errorf("no extended key was reached through two operation orders: the commutation check is vacuous")
 	}
 
 	// a few written-out cases
@@ -292,5 +324,5 @@ func replay(c *vrun.Ctx, cases []rawCase) error {
 	}
 	c.Ev.Coverage.Exhaustive = false
 	c.Ev.Coverage.Explanation = "every case TLC enumerated was replayed; the quantifier of the property over payloads, seeds and strings at edit distance <= 4 is covered by classes with random (seeded) representatives, not exhaustively"
-	return nil
+	return w, nil
 }
